@@ -207,6 +207,13 @@ def _row(prog, rep, m, cw, iw, getcall):
         lastc = cmp_nf("Eq", col_no, ("bin", "Sub", m.columns, ("int", 1)))
         is_last = lastc in nfs
         is_notlast = NE0(lastc[1]) in nfs
+        # column_no ranges over 0..columns, so `column_no + 1 < columns` is `column_no != columns - 1` and its negation
+        # is `column_no == columns - 1`
+        dcol = poly(m.columns) - poly(col_no)
+        if GT0(dcol - poly(("int", 1))) in nfs:
+            is_notlast = True
+        if GE0(poly(("int", 1)) - dcol) in nfs:
+            is_last = True
         if is_some:
             seen["some"] += 1
             okc = len(vals) >= 2 and vals[0] == cell
